@@ -848,4 +848,180 @@ theorem run_map_eps (i : Impl R) : i.wf = true → EpsOK i := by
 
 end soundness
 
+section centraldiff
+set_option linter.unusedSectionVars false
+open Impl
+
+section hom
+variable {K K' : Type} [Add K] [Mul K] [OfNat K 0] [OfNat K 1]
+  [Add K'] [Mul K'] [OfNat K' 0] [OfNat K' 1]
+
+/-- Maps preserving `+`, `*`, `0`, `1` (ring homomorphisms in the notation-class setting). -/
+structure IsHom (φ : K → K') : Prop where
+  add : ∀ a b, φ (a + b) = φ a + φ b
+  mul : ∀ a b, φ (a * b) = φ a * φ b
+  zero : φ 0 = 0
+  one : φ 1 = 1
+
+theorem IsHom.pw {φ : K → K'} (h : IsHom φ) (a : K) (p : Nat) : φ (pw a p) = pw (φ a) p := by
+  induction p with
+  | zero => exact h.one
+  | succ p ih => simp only [Deriv.pw, h.mul, ih]
+
+theorem IsHom.sumTo {φ : K → K'} (h : IsHom φ) (n : Nat) (f : Nat → K) :
+    φ (sumTo n f) = sumTo n (fun j => φ (f j)) := by
+  induction n with
+  | zero => exact h.zero
+  | succ n ih => simp only [Deriv.sumTo, h.add, ih]
+
+/-- Evaluation commutes with homomorphisms of the scalars. -/
+theorem run_map_hom {φ : K → K'} (h : IsHom φ) (i : Impl K) : ∀ (x : Vec K) (k : Nat),
+    (i.map φ).run (fun k => φ (x k)) k = φ (i.run x k) := by
+  induction i with
+  | identity n => intro x k; rfl
+  | scaling n s => intro x k; simp only [Impl.map, Impl.run, h.mul]
+  | multiply n v => intro x k; simp only [Impl.map, Impl.run, h.mul]
+  | matrix m n a => intro x k; simp only [Impl.map, Impl.run, h.sumTo, h.mul]
+  | zero n m => intro x k; simp only [Impl.map, Impl.run, h.zero]
+  | const n m c => intro x k; simp only [Impl.map, Impl.run]; split <;> simp [h.zero]
+  | power n p => intro x k; simp only [Impl.map, Impl.run, h.pw]
+  | inner n v => intro x k; simp only [Impl.map, Impl.run, h.sumTo, h.mul]
+  | normsq n => intro x k; simp only [Impl.map, Impl.run, h.sumTo, h.mul]
+  | sum l r tr td ihl ihr => intro x k; simp only [Impl.map, Impl.run, h.add, ihl, ihr]
+  | vecsum op v ih => intro x k; simp only [Impl.map, Impl.run, h.add, ih]
+  | comp l r tmp ihl ihr =>
+    intro x k
+    simp only [Impl.map, Impl.run]
+    have : (r.map φ).run (fun k => φ (x k)) = fun k => φ (r.run x k) := funext (ihr x)
+    rw [this, ihl]
+  | lscal op s ih => intro x k; simp only [Impl.map, Impl.run, h.mul, ih]
+  | rscal op s ih =>
+    intro x k
+    simp only [Impl.map, Impl.run]
+    have : (fun k => φ s * φ (x k)) = fun k => φ (s * x k) := by funext q; rw [h.mul]
+    rw [this, ih]
+  | lvec op v ih => intro x k; simp only [Impl.map, Impl.run, h.mul, ih]
+  | rvec op v ih =>
+    intro x k
+    simp only [Impl.map, Impl.run]
+    have : (fun k => φ (x k) * φ (v k)) = fun k => φ (x k * v k) := by funext q; rw [h.mul]
+    rw [this, ih]
+  | pprod l r ihl ihr => intro x k; simp only [Impl.map, Impl.run, h.mul, ihl, ihr]
+  | flvec g m v ih => intro x k; simp only [Impl.map, Impl.run, h.mul, ih]
+  | bnil n => intro x k; simp only [Impl.map, Impl.run, h.zero]
+  | bcons op rest iho ihr =>
+    intro x k; simp only [Impl.map, Impl.run, Impl.ran_map]; split
+    · exact iho x k
+    · exact ihr x _
+  | rnil m => intro x k; simp only [Impl.map, Impl.run, h.zero]
+  | rcons op rest iho ihr =>
+    intro x k; simp only [Impl.map, Impl.run, Impl.dom_map, h.add, iho]
+    rw [ihr (fun j => x (op.dom + j)) k]
+  | dnil => intro x k; simp only [Impl.map, Impl.run, h.zero]
+  | dcons op rest iho ihr =>
+    intro x k; simp only [Impl.map, Impl.run, Impl.ran_map, Impl.dom_map]; split
+    · exact iho x k
+    · exact ihr (fun j => x (op.dom + j)) _
+
+end hom
+
+theorem map_map {K K' K'' : Type} (f : K → K') (g : K' → K'') (i : Impl K) :
+    (i.map f).map g = i.map (fun a => g (f a)) := by
+  induction i <;> simp_all [Impl.map]
+
+/-- Polynomials in `h` truncated at `h³`: `a + b h + c h²`. -/
+structure Trunc3 (R : Type) where
+  a : R
+  b : R
+  c : R
+
+namespace Trunc3
+variable {R : Type} [CommRing R]
+instance : Add (Trunc3 R) := ⟨fun p q => ⟨p.a + q.a, p.b + q.b, p.c + q.c⟩⟩
+instance : Mul (Trunc3 R) :=
+  ⟨fun p q => ⟨p.a * q.a, p.a * q.b + p.b * q.a, p.a * q.c + p.b * q.b + p.c * q.a⟩⟩
+instance : OfNat (Trunc3 R) 0 := ⟨⟨0, 0, 0⟩⟩
+instance : OfNat (Trunc3 R) 1 := ⟨⟨1, 0, 0⟩⟩
+/-- Constants. -/
+def C (r : R) : Trunc3 R := ⟨r, 0, 0⟩
+/-- `h ↦ -h`. -/
+def flip (p : Trunc3 R) : Trunc3 R := ⟨p.a, -p.b, p.c⟩
+/-- Truncation mod `h²` (`h ↦ ε`). -/
+def toDual (p : Trunc3 R) : Dual R := ⟨p.a, p.b⟩
+
+theorem ext' {p q : Trunc3 R} (h1 : p.a = q.a) (h2 : p.b = q.b) (h3 : p.c = q.c) : p = q := by
+  cases p; cases q; simp_all
+
+@[simp] theorem add_a (p q : Trunc3 R) : (p + q).a = p.a + q.a := rfl
+@[simp] theorem add_b (p q : Trunc3 R) : (p + q).b = p.b + q.b := rfl
+@[simp] theorem add_c (p q : Trunc3 R) : (p + q).c = p.c + q.c := rfl
+@[simp] theorem mul_a (p q : Trunc3 R) : (p * q).a = p.a * q.a := rfl
+@[simp] theorem mul_b (p q : Trunc3 R) : (p * q).b = p.a * q.b + p.b * q.a := rfl
+@[simp] theorem mul_c (p q : Trunc3 R) : (p * q).c = p.a * q.c + p.b * q.b + p.c * q.a := rfl
+@[simp] theorem zero_a : (0 : Trunc3 R).a = 0 := rfl
+@[simp] theorem zero_b : (0 : Trunc3 R).b = 0 := rfl
+@[simp] theorem zero_c : (0 : Trunc3 R).c = 0 := rfl
+@[simp] theorem one_a : (1 : Trunc3 R).a = 1 := rfl
+@[simp] theorem one_b : (1 : Trunc3 R).b = 0 := rfl
+@[simp] theorem one_c : (1 : Trunc3 R).c = 0 := rfl
+
+theorem flip_hom : IsHom (Trunc3.flip : Trunc3 R → Trunc3 R) where
+  add p q := by apply ext' <;> simp [Trunc3.flip]; ring
+  mul p q := by apply ext' <;> simp [Trunc3.flip]; ring
+  zero := by apply ext' <;> simp [Trunc3.flip]
+  one := by apply ext' <;> simp [Trunc3.flip]
+
+theorem toDual_hom : IsHom (toDual : Trunc3 R → Dual R) where
+  add _ _ := rfl
+  mul _ _ := rfl
+  zero := rfl
+  one := rfl
+
+end Trunc3
+
+section cd
+variable {R : Type} [CommRing R] [DecidableEq R]
+open Trunc3
+
+theorem dual_ext {p q : Dual R} (h1 : p.re = q.re) (h2 : p.eps = q.eps) : p = q := by
+  cases p; cases q; simp_all
+
+/-- Evaluate on `x + h d` and on `x - h d` over `R[h]/(h³)`. -/
+theorem central_diff (i : Impl R) (hwf : i.wf = true) (x d : Vec R) (j : Impl R)
+    (hj : i.deriv x = some j) (k : Nat) :
+    let P := (i.map Trunc3.C).run (fun k => ⟨x k, d k, 0⟩) k
+    let M := (i.map Trunc3.C).run (fun k => ⟨x k, - d k, 0⟩) k
+    P.a = i.run x k ∧ M.a = i.run x k ∧ P.b = j.run d k ∧ M.b = - j.run d k ∧ P.c = M.c := by
+  intro P M
+  -- M is the image of P under h ↦ -h
+  have hM : M = Trunc3.flip P := by
+    have h1 := run_map_hom (flip_hom (R := R)) (i.map Trunc3.C) (fun k => ⟨x k, d k, 0⟩) k
+    rw [map_map] at h1
+    have e1 : (fun a : R => Trunc3.flip (Trunc3.C a)) = Trunc3.C := by
+      funext a; simp [Trunc3.flip, Trunc3.C]
+    have e2 : (fun k => Trunc3.flip (⟨x k, d k, 0⟩ : Trunc3 R)) = fun k => ⟨x k, - d k, 0⟩ := by
+      funext q; simp [Trunc3.flip]
+    rw [e1, e2] at h1
+    exact h1
+  -- the image of P mod h² is the dual-number evaluation
+  have hD : toDual P = ⟨i.run x k, j.run d k⟩ := by
+    have h1 := run_map_hom (toDual_hom (R := R)) (i.map Trunc3.C) (fun k => ⟨x k, d k, 0⟩) k
+    rw [map_map] at h1
+    have e1 : (fun a : R => toDual (Trunc3.C a)) = Dual.C := by
+      funext a; rfl
+    rw [e1] at h1
+    rw [← h1]
+    have h2 := run_map_re i (fun k => (⟨x k, d k⟩ : Dual R)) k
+    have h3 := run_map_eps i hwf (fun k => (⟨x k, d k⟩ : Dual R)) j hj k
+    exact dual_ext h2 h3
+  have ha : P.a = i.run x k := congrArg Dual.re hD
+  have hb : P.b = j.run d k := congrArg Dual.eps hD
+  rw [hM]
+  refine ⟨ha, ha, hb, ?_, rfl⟩
+  show -P.b = _
+  rw [hb]
+
+end cd
+end centraldiff
+
 end OdlModel.Deriv
